@@ -120,3 +120,64 @@ Proof.
 Qed.
 
 End BelowDec.
+
+(* ---------- TreeFacts only looks at parent links, element children, roots and the allocation bound *)
+Definition sview (n : node) := (n_parent n, elem_ids (n_content n)).
+Definition SE (w w' : world) : Prop :=
+  (forall j, option_map sview (w_nodes w' j) = option_map sview (w_nodes w j)) /\
+  w_next w' = w_next w /\ map m_root (w_models w') = map m_root (w_models w).
+
+Lemma se_child w w' p c : SE w w' -> child_of w p c -> child_of w' p c.
+Proof.
+  intros (Hn & _) (n & Hp & Hc). specialize (Hn p). rewrite Hp in Hn. destruct (w_nodes w' p) as [n'|] eqn:Ep'; [|discriminate].
+  cbn in Hn. injection Hn as _ He. unfold child_of. rewrite Ep'. exists n'. split; [reflexivity|]. apply in_elem_ids. rewrite He. apply in_elem_ids. exact Hc.
+Qed.
+Lemma SE_sym w w' : SE w w' -> SE w' w.
+Proof. intros (H1 & H2 & H3). split; [intros j; symmetry; apply H1|]. split; congruence. Qed.
+Lemma se_node w w' j n : SE w w' -> w_nodes w j = Some n -> exists n', w_nodes w' j = Some n' /\ sview n' = sview n.
+Proof.
+  intros (Hn & _) Hj. specialize (Hn j). rewrite Hj in Hn. destruct (w_nodes w' j) as [n'|]; [|discriminate].
+  exists n'. split; [reflexivity|]. cbn in Hn. congruence.
+Qed.
+Lemma se_model w w' m x : SE w w' -> model_at w m = Some x -> exists x', model_at w' m = Some x' /\ m_root x' = m_root x.
+Proof.
+  intros (_ & _ & Hm) Hx. unfold model_at in *. apply (f_equal (fun l => nth_opt l (N.to_nat m))) in Hm.
+  assert (Hmap : forall (l : list model) k, nth_opt (map m_root l) k = option_map m_root (nth_opt l k)).
+  { induction l as [|y l IH]; intros [|k]; cbn; auto. }
+  rewrite !Hmap, Hx in Hm. destruct (nth_opt (w_models w') (N.to_nat m)) as [x'|]; [|discriminate].
+  exists x'. split; [reflexivity|]. cbn in Hm. congruence.
+Qed.
+Lemma se_pdepth w w' i h : SE w w' -> pdepth w i h -> pdepth w' i h.
+Proof.
+  intros HS Hd. induction Hd as [i n Hn Ht|i n p h Hn Hp Hd IH].
+  - destruct (se_node _ _ _ _ HS Hn) as (n' & Hn' & Hv). eapply pd_top; [exact Hn'|]. unfold sview in Hv. intros p Hp. apply (Ht p). congruence.
+  - destruct (se_node _ _ _ _ HS Hn) as (n' & Hn' & Hv). eapply pd_step; [exact Hn'| |exact IH]. unfold sview in Hv. congruence.
+Qed.
+
+Section SEreach.
+Variable T : tables.
+Lemma se_reach w w' a i : SE w w' -> reach T w a i -> reach T w' a i.
+Proof.
+  intros HS (q & Hd). induction Hd as [|p c q Hp IH Hc]; [apply reach_refl|]. eapply reach_step; [exact IH|eapply se_child; eauto].
+Qed.
+
+Theorem TreeFacts_se w w' : SE w w' -> TreeFacts w -> TreeFacts w'.
+Proof.
+  intros HS HF. pose proof (SE_sym _ _ HS) as HS'. constructor.
+  - intros p c Hc. apply (se_child _ _ _ _ HS') in Hc. destruct (tf_up _ HF _ _ Hc) as (cn & Hcn & Hp).
+    destruct (se_node _ _ _ _ HS Hcn) as (cn' & Hcn' & Hv). exists cn'. split; [exact Hcn'|]. unfold sview in Hv. congruence.
+  - intros p n' Hp. destruct (se_node _ _ _ _ HS' Hp) as (n & Hn & Hv). unfold sview in Hv.
+    assert (elem_ids (n_content n') = elem_ids (n_content n)) by congruence. rewrite H. eapply tf_nodup; eauto.
+  - intros c cn' p Hc Hp. destruct (se_node _ _ _ _ HS' Hc) as (cn & Hcn & Hv). unfold sview in Hv.
+    eapply se_child; [exact HS|]. eapply tf_down; eauto. congruence.
+  - intros m x' Hx'. destruct (se_model _ _ _ _ HS' Hx') as (x & Hx & Hr). destruct (tf_roots _ HF _ _ Hx) as (n & Hn & Hp).
+    destruct (se_node _ _ _ _ HS Hn) as (n' & Hn' & Hv). exists n'. rewrite <- Hr. split; [exact Hn'|]. unfold sview in Hv. congruence.
+  - intros i n' m Hn' Hp. destruct (se_node _ _ _ _ HS' Hn') as (n & Hn & Hv). unfold sview in Hv.
+    destruct (tf_pmodel _ HF i n m Hn) as (x & Hx & Hr); [congruence|].
+    destruct (se_model _ _ _ _ HS Hx) as (x' & Hx' & Hr'). exists x'. split; [exact Hx'|congruence].
+  - intros i n' Hn'. destruct (se_node _ _ _ _ HS' Hn') as (n & Hn & _). destruct (tf_depth _ HF _ _ Hn) as (h & Hd).
+    exists h. eapply se_pdepth; eauto.
+  - intros i n' Hn'. destruct (se_node _ _ _ _ HS' Hn') as (n & Hn & _). destruct HS as (_ & Hnx & _). rewrite Hnx.
+    eapply tf_alloc; eauto.
+Qed.
+End SEreach.
